@@ -391,6 +391,27 @@ func describeEntry(e *atlas.AtlasEntry, pool []*atlas.AtlasEntry) string {
 	return head + "invalid"
 }
 
+// one atlas per shape family: autogenerated entries for every struct type of the family
+func buildShapeAtlases() {
+	if len(atlases) > 5 {
+		return
+	}
+	for k, fam := range shapeFamilies {
+		var es []*atlas.AtlasEntry
+		for _, t := range fam.all {
+			es = append(es, atlas.BuildEntry(reflect.New(t).Elem().Interface()).StructMap().Autogenerate().Complete())
+		}
+		es = append(es, atlas.BuildEntry(myInt(0)).Transform().
+			TransformMarshal(atlas.MakeMarshalTransformFunc(func(x myInt) (int, error) { return int(x), nil })).
+			TransformUnmarshal(atlas.MakeUnmarshalTransformFunc(func(x int) (myInt, error) { return myInt(x), nil })).Complete())
+		a, err := atlas.Build(es...)
+		if err != nil {
+			panic(err)
+		}
+		atlases = append(atlases, &atlasCfg{id: 100 + k, atl: a, entries: es, nReg: len(es), sort: atlas.KeySortMode_Default})
+	}
+}
+
 // rootTypes are the types values are generated for.
 func rootTypes() []reflect.Type {
 	var ts []reflect.Type
@@ -422,6 +443,13 @@ func zooDefs() []string {
 			tid(e.Type)
 		}
 	}
+	tid(reflect.TypeOf(myInt(0)))
+	for _, fam := range shapeFamilies {
+		for _, t := range fam.all {
+			tid(t)
+		}
+	}
+	buildShapeAtlases()
 	var out []string
 	// describing may register more types; iterate to a fixpoint
 	for i := 0; i < len(typeByID); i++ {
